@@ -20,7 +20,11 @@ RULE = ("linecol: all texts of length <= 4 (quick) / 5 (thorough) over the 7-sym
         "fault: generated valid program x 5 fault kinds x position x non-ASCII context (before/on/after the fault line, leading block "
         "comment shifting the column, included file, CRLF); unfinished directives are generated on purpose before a line that CAN continue them "
         "(known finding F51 applies only there), before a `#` directive line, as the last line of the main / included file with and without a "
-        "final line feed (there the error must be on the fault line); non-trivial = distinct (kind, fault text, decoration, context, included?, "
+        "final line feed (there the error must be on the fault line); a multi-line #bankdef block (main or included banks.asm, `name = v` or "
+        "`#name v` fields) gets an unknown / duplicate / ill-valued field at every index and the error must be that field's name token; the ISA "
+        "has an asm-block rule and a rule calling a user function with an assertion (function next to the rules or in the library file) so that "
+        "message trees nest across two or three files, and every message is checked as print_all shows it inside its whole tree (file name, "
+        "line:col, excerpt lines against ITS OWN file); non-trivial = distinct (kind, fault text, decoration, context, included?, "
         "multi-byte character before the fault in the same file). monitor: every message of 1..4-edit token mutants of the corpus; "
         "non-trivial = distinct (file, mutant) producing at least one located message after a multi-byte character.")
 
@@ -75,8 +79,14 @@ def parse_msgs(field):
         if f[3] not in ("", "!"):
             name = bytes.fromhex(f[3]).decode("utf-8", "replace")
         out.append({"depth": int(f[0]), "kind": f[1], "span": f[2], "file": name, "badfile": f[3] == "!",
-                    "start": int(f[4]), "end": int(f[5]), "pl": f[6], "pc": f[7], "short": (f[8] if len(f) > 8 else "0")})
+                    "start": int(f[4]), "end": int(f[5]), "pl": f[6], "pc": f[7], "short": (f[8] if len(f) > 8 else "0"),
+                    "tree": (f[9], f[10], f[11], f[12]) if len(f) > 12 else None})
     return out
+
+
+def squeeze(b):
+    """a source line as the excerpt shows it, up to blanks: print_msg_src turns every character <= ' ' into blanks"""
+    return bytes(x for x in b if x > 0x20)
 
 
 def check_message(files, m):
@@ -97,6 +107,32 @@ def check_message(files, m):
     l, c = g.spec_linecol(files[m["file"]], m["start"])
     if (m["pl"], m["pc"]) != (str(l + 1), str(c + 1)):
         return "printed %s:%s but byte %d of %s is line %d, character column %d" % (m["pl"], m["pc"], m["start"], m["file"], l + 1, c + 1)
+    # the same message as print_all shows it inside its whole message tree (nested messages may live in other files)
+    t = m.get("tree")
+    if t is not None:
+        if t[0] == "P":
+            return "printing the message tree panics"
+        if t[0] == "?":
+            return "the message (or its `file:line:col` header) is missing from the printed message tree"
+        tfile = bytes.fromhex(t[0]).decode("utf-8", "replace")
+        if tfile != m["file"]:
+            return "inside its message tree the message is printed under file %r, its span is in %r" % (tfile, m["file"])
+        if (t[1], t[2]) != (str(l + 1), str(c + 1)):
+            return "inside its message tree the message is printed at %s:%s:%s but byte %d of %s is line %d, character column %d" % (
+                tfile, t[1], t[2], m["start"], m["file"], l + 1, c + 1)
+        ranges = g.line_ranges(files[m["file"]])
+        shown = []
+        for item in (t[3].split("/") if t[3] != "-" else []):
+            n, _, hx = item.partition(":")
+            n = int(n)
+            shown.append(n)
+            want = files[m["file"]][ranges[n - 1][0]:ranges[n - 1][1]] if 1 <= n <= len(ranges) else None
+            if want is None or squeeze(bytes.fromhex(hx)) != squeeze(want):
+                return "the excerpt under %s:%s:%s shows as line %d %r, line %d of that file is %r" % (
+                    tfile, t[1], t[2], n, bytes.fromhex(hx).decode("utf-8", "replace"), n,
+                    None if want is None else want.decode("utf-8", "replace"))
+        if (l + 1) not in shown:
+            return "the excerpt under %s:%s:%s does not show line %d" % (tfile, t[1], t[2], l + 1)
     return None
 
 
@@ -252,6 +288,14 @@ def fault_verdict(case, r, known):
         return ("fault-wrong-line-after" if m["start"] >= hi else "fault-wrong-line-before" if m["start"] < lo else "fault-span-spills-over"), \
             "the first error is located at %s:%d:%d (bytes %d..%d), the fault is on line %d" % (
                 efile, l + 1, c + 1, m["start"], m["end"], eline + 1)
+    if case.get("token") is not None:
+        # a faulty field of a multi-line block: the error is the field's own name token, not the block or an earlier field
+        ts = lo + case["token"][0]
+        if (m["start"], m["end"]) != (ts, ts + case["token"][1]):
+            l, c = g.spec_linecol(b, m["start"])
+            tl, tc = g.spec_linecol(b, ts)
+            return "fault-wrong-token", "the first error is located at %s:%d:%d (bytes %d..%d), the faulty field name is at %d:%d (bytes %d..%d)" % (
+                efile, l + 1, c + 1, m["start"], m["end"], tl + 1, tc + 1, ts, ts + case["token"][1])
     if case["other"] is not None:
         # duplicate declaration: the nested note points at the earlier declaration
         notes = [x for x in msgs[1:] if x["depth"] == 1 and x["span"] == "S"]
@@ -299,7 +343,7 @@ def stream_fault(chk, lim, model, bins):
         q = c["prog"]
         rep = {"kind": "program", "stream": "fault", "fault_kind": c["kind"], "fault_text": c["stmt"], "fault_file": c["file"],
                "fault_line": c["line"] + 1, "expect": [c["expect"][0], c["expect"][1] + 1], "entry": q.entry,
-               "situation": c.get("situation"), "next_useful_token_after_fault_line": c.get("next_token"), "can_continue": c.get("continues"),
+               "situation": c.get("situation"), "field_index": c.get("field_index"), "next_useful_token_after_fault_line": c.get("next_token"), "can_continue": c.get("continues"),
                "files": {n: q.text(n) for n in q.order}, "impl": r}
         dist["kind_" + c["kind"]] += 1
         dist["nonascii_on_line_" + c["on_line"]] += 1
@@ -307,6 +351,9 @@ def stream_fault(chk, lim, model, bins):
         dist["fault_in_included_file"] += 1 if c["included"] else 0
         dist["crlf"] += 1 if q.eol == "\r\n" else 0
         dist["open_ended_directive_faults"] += 1 if c["open_ended"] else 0
+        if str(c.get("situation", "")).startswith("bankdef_"):
+            dist[c["situation"]] = dist.get(c["situation"], 0) + 1
+            dist["bankdef_field_not_first"] = dist.get("bankdef_field_not_first", 0) + (1 if c["field_index"] > 0 else 0)
         if c["open_ended"]:
             k2 = "open_ended_" + ("next_can_continue" if c["continues"] else ("at_end_of_file" if c["next_token"] is None else "next_cannot_continue"))
             dist[k2] = dist.get(k2, 0) + 1
